@@ -94,6 +94,7 @@ type Exec struct {
 	inlineOf map[*ssa.Function]bool
 	strKeys  []strKey
 	loopPre  map[*ssa.BasicBlock]*State
+	rangedAt   map[*Term]bool
 	obligedAt  map[*Term]*ssa.BasicBlock  // safety condition -> block where it was first obliged
 	skipped    int                        // safety conditions not re-queried (syntactically known)
 	curBlock   *ssa.BasicBlock            // current block of the top-level function
@@ -140,17 +141,34 @@ func (x *Exec) assume(st *State, fact *Term) {
 
 func (x *Exec) assumeRanges(st *State, v Value, t types.Type) {
 	for _, f := range x.rangeFacts(v, t, st) {
-		if x.ranged[f] || f.bound {
+		if f.bound {
 			continue // (facts about terms under a binder cannot be global hypotheses)
 		}
+		// type invariants hold unconditionally for the terms involved; they are recorded under the
+		// reach condition of the point of use only so that sibling branches can be pruned from queries
+		g := x.c.Implies(st.reach, f)
+		if x.rangedAt[g] {
+			continue
+		}
+		if x.rangedAt == nil {
+			x.rangedAt = map[*Term]bool{}
+		}
+		x.rangedAt[g] = true
 		x.ranged[f] = true
-		x.hyps = append(x.hyps, f) // type invariants hold unconditionally for the symbols involved
+		x.hyps = append(x.hyps, g)
 	}
 }
 
 func (x *Exec) oblige(st *State, kind, desc string, p token.Pos, cond *Term, props []string, clause string) *Obligation {
 	if x.mute {
 		return nil
+	}
+	if x.fc != nil && x.fc.AssumeKinds != nil {
+		if an, ok := x.fc.AssumeKinds[kind]; ok {
+			x.ledger[fmt.Sprintf("%s: %s conditions assumed (not proved) in %s", an, kind, shortFunc(x.unitName()))] = true
+			x.assume(st, cond)
+			return nil
+		}
 	}
 	switch kind {
 	case "nilptr", "bounds", "slice", "nonzero", "no-overflow", "assert-type", "nilmap", "makeslice":
@@ -180,6 +198,12 @@ func (x *Exec) oblige(st *State, kind, desc string, p token.Pos, cond *Term, pro
 		Desc: desc, Pos: x.pos(p), Goal: goal, NHyps: len(x.hyps), Props: props, Clause: clause, ctx: x}
 	if len(props) == 0 {
 		ob.Props = x.curProps
+		switch kind {
+		case "nilptr", "bounds", "slice", "nonzero", "no-overflow", "assert-type", "nilmap", "makeslice", "panic-unreachable", "requires@call":
+			if x.fc != nil && len(x.fc.SafetyProps) > 0 {
+				ob.Props = x.fc.SafetyProps
+			}
+		}
 	}
 	ob.block = x.curBlock
 	x.obls = append(x.obls, ob)
@@ -712,7 +736,7 @@ func (x *Exec) runBody(fn *ssa.Function, st0 *State, params []Value, freevars []
 			case *ssa.If, *ssa.Jump, *ssa.Return, *ssa.Panic:
 				term = in
 			default:
-				x.step(st, in)
+				x.stepSafe(st, in)
 			}
 		}
 		switch t := term.(type) {
@@ -739,6 +763,36 @@ func (x *Exec) runBody(fn *ssa.Function, st0 *State, params []Value, freevars []
 		}
 	}
 	return rets
+}
+
+// stepSafe executes one instruction; a construct outside the modelled subset degrades to
+// "everything reachable is havoced, the result is unconstrained" and is listed in the ledger
+// (its own panics, if any, are then not checked).
+func (x *Exec) stepSafe(st *State, in ssa.Instruction) {
+	defer func() {
+		if r := recover(); r != nil {
+			u, ok := r.(unsupportedErr)
+			if !ok {
+				panic(r)
+			}
+			x.ledger[fmt.Sprintf("UNMODELLED instruction at %s (%s): havoc of all memory, result unconstrained", x.pos(in.Pos()), u.msg)] = true
+			x.havocForUnknown(st)
+			for _, op := range in.Operands(nil) {
+				if op == nil || *op == nil {
+					continue
+				}
+				if al, ok := root(*op).(*ssa.Alloc); ok && !al.Heap {
+					if _, has := st.cells[al]; has {
+						st.cells[al] = x.freshValue("unm_"+al.Comment, deref(al.Type()))
+					}
+				}
+			}
+			if v, ok := in.(ssa.Value); ok {
+				x.regs[v] = x.freshResult(st, "unm", v.Type())
+			}
+		}
+	}()
+	x.step(st, in)
 }
 
 // blockCanReach: is there a path a ->* b in the loop-cut CFG (back edges ignored)?
@@ -777,15 +831,77 @@ func (x *Exec) relevantHyps(ob *Obligation) []*Term {
 		return hyps
 	}
 	out := make([]*Term, 0, len(hyps))
+	var unguarded []*Term
 	for _, h := range hyps {
 		if h.op == "=>" && len(h.args) == 2 {
-			if blk, ok := x.reachBlock[h.args[0]]; ok && blk.Parent() == ob.block.Parent() && !x.blockCanReach(blk, ob.block) {
+			if blk, ok := x.reachBlock[h.args[0]]; ok && blk.Parent() == ob.block.Parent() {
+				if !x.blockCanReach(blk, ob.block) {
+					continue
+				}
+				out = append(out, h)
 				continue
 			}
 		}
-		out = append(out, h)
+		unguarded = append(unguarded, h)
 	}
-	return out
+	// unguarded facts (type ranges, literal contents, axioms, string-equality facts): keep those that
+	// share a symbol, transitively, with the goal or the path facts
+	syms := map[string]bool{}
+	memo := map[*Term]bool{}
+	x.c.symbols(ob.Goal, syms, memo)
+	for _, h := range out {
+		x.c.symbols(h, syms, memo)
+	}
+	type uh struct {
+		h    *Term
+		syms map[string]bool
+	}
+	var us []uh
+	for _, h := range unguarded {
+		s := map[string]bool{}
+		x.c.symbols(h, s, map[*Term]bool{})
+		us = append(us, uh{h, s})
+	}
+	kept := make([]bool, len(us))
+	for changed := true; changed; {
+		changed = false
+		for i, u := range us {
+			if kept[i] {
+				continue
+			}
+			hit := len(u.syms) == 0
+			for s := range u.syms {
+				if syms[s] {
+					hit = true
+					break
+				}
+			}
+			if hit {
+				kept[i] = true
+				changed = true
+				for s := range u.syms {
+					syms[s] = true
+				}
+			}
+		}
+	}
+	// preserve the original order
+	res := make([]*Term, 0, len(hyps))
+	keepSet := map[*Term]bool{}
+	for _, h := range out {
+		keepSet[h] = true
+	}
+	for i, u := range us {
+		if kept[i] {
+			keepSet[u.h] = true
+		}
+	}
+	for _, h := range hyps {
+		if keepSet[h] {
+			res = append(res, h)
+		}
+	}
+	return res
 }
 
 // simpleBlock: only loads, field/index address computations and the like (safe to duplicate).
